@@ -15,6 +15,27 @@ CHECKS = {
         "Trusts the 25-line reference scan and the plain-data conversion; domain 1<=a<=b on non-empty scaffolds.",
         "3-C12",
     ),
+    "C18": (
+        "exploration",
+        "shadow-state monitor on every OverlapResult born from a real lookup; invariant re-derived from rows vs source scaffold after each mutating method (icontract post-conditions + snapshots for the prediction law); direct random op sequences + in-situ remap",
+        "After every discard/trim operation on every tracked overlap result (random operation sequences and the sequences the remap pipeline really applies) span, contiguity, terminal-gap and derived-figure invariants are recomputed independently; holds on the observed states only.",
+        "Objects are tracked only when born from find_overlaps; strands +1/-1; a sequence ends at the first raising operation.",
+        "3-C18",
+    ),
+    "C19": (
+        "exploration",
+        "icontract post-conditions on Fragment.overlaps/overlap_length/abuts/gap_between vs interval arithmetic (exhaustive [0,7]^2 + random to 1e12); O(n^2) reference vs find_overlapping_fragments and vs parsed stderr of asm-format --qc-overlaps",
+        "Every predicate call made by the workloads is compared with closed-interval set semantics, mutual consistency is asserted per pair, and the scan / CLI report is compared pair-for-pair with a quadratic reference on random assemblies.",
+        "Closed 1-based integer intervals; fragment occurrences identified by (scaffold,row).",
+        "3-C19",
+    ),
+    "C20": (
+        "exploration",
+        "contract (never raises, alternating str/int) on the real Assembly.name_natural_key for every key computed; permutation, numeric, nematode-numeral, unloc and rank laws on scaffolds_sorted_by_name / smart_sort_scaffolds over seeded name sets",
+        "Seeded name sets (G-names incl. I/V/X runs, leading zeros, unloc suffixes) are sorted from several permutations; totality, permutation-invariance of the key sequence and the documented orderings are asserted on each.",
+        "ASCII names < 60 chars; unloc law for chromosome names none of which is a digit-extended prefix of another.",
+        "3-C20",
+    ),
 }
 
 ALL = [f"C{i:02d}" for i in range(1, 21)]
